@@ -62,6 +62,43 @@ Theorem C06_sound_eq :
 Proof. exact sound_eq. Qed.
 Print Assumptions C06_sound_eq.
 
+(* NodeReifier: Load and LoadPlusRaw hand the reifier the link system the call was made on (same
+   TrustedStorage, same read opener), and only after the load itself succeeded *)
+Theorem C06_reifier_handle :
+  forall (hasher_ok : N -> bool) (hash : N -> bytes -> bytes) (decoders : N -> option codec)
+         (rm : rmode) (f : lform) (h : handle) (l : link) (h' : handle),
+    reifier_handle hasher_ok hash decoders rm f h l = Some h' ->
+    h' = h /\ (f = FLoad \/ f = FLoadPlusRaw) /\
+    lo_status (load_any hasher_ok hash decoders f (h_trusted h) (h_open h l) l) = SOk.
+Proof.
+  intros hasher_ok hash decoders rm f h l h' R. split.
+  - exact (reifier_handle_is_users hasher_ok hash decoders rm f h l h' R).
+  - exact (reifier_invoked_only_after_ok hasher_ok hash decoders rm f h l h' R).
+Qed.
+Print Assumptions C06_reifier_handle.
+
+(* C06_sound for every load a reifier (an ADL) makes through the link system it was handed, during
+   the outer call or later: unless the USER declared the storage trusted, such a load that reports
+   success was given a complete stream that verifies against the requested link *)
+Theorem C06_reifier_loads_sound :
+  forall (hasher_ok : N -> bool) (hash : N -> bytes -> bytes) (decoders : N -> option codec),
+    registry_consumes_all decoders ->
+    forall (rm : rmode) (f : lform) (h : handle) (l : link) (h' : handle) (rm' : rmode) (f' : lform) (l' : link),
+      reifier_handle hasher_ok hash decoders rm f h l = Some h' ->
+      h_trusted h = false ->
+      lo_status (load_h hasher_ok hash decoders rm' f' h' l') = SOk ->
+      exists chunks : list bytes,
+        h_open h l' = RStream chunks TEof /\
+        verify hash l' (concat chunks) = VOk /\
+        (forall n : dm,
+            lo_node (load_h hasher_ok hash decoders rm' f' h' l') = Some n ->
+            exists (c : codec) (p : N) (e : bool),
+              decoders (lp_codec (link_proto l')) = Some c /\ c_dec c (concat chunks) = Some (n, p, e)) /\
+        (forall raw : bytes,
+            lo_raw (load_h hasher_ok hash decoders rm' f' h' l') = Some raw -> raw = concat chunks).
+Proof. exact reifier_loads_sound. Qed.
+Print Assumptions C06_reifier_loads_sound.
+
 (* LoadRaw and LoadPlusRaw verify the hash even under TrustedStorage *)
 Theorem C06_raw_forms_ignore_trust :
   forall (hasher_ok : N -> bool) (hash : N -> bytes -> bytes) (decoders : N -> option codec)
